@@ -88,6 +88,8 @@ ALTS = {
     ],
     "application_name": [
         plain(P + "name"),
+        # leaf key named like an array on its own path
+        plain(P + "spans"),
         kv(RES, "service.version", SV),
         {"key_paths": [SCOPE, P + "span_id"], "value_type": "string"},
     ],
@@ -133,7 +135,8 @@ def default_doc(tag=""):
         i = r * 4 + s * 2 + p
         return {"trace_id": f"{tag}t{i}", "span_id": f"{tag}s{i}",
                 "parent_span_id": None if p == 0 else f"{tag}s{i-1}",
-                "name": f"/n{i}", "start_time_unix_nano": str(1000 + i),
+                "name": f"/n{i}", "spans": f"inner{i}",
+                "start_time_unix_nano": str(1000 + i),
                 "end_time_unix_nano": str(2000 + i), "attributes": attrs(i)}
     return {"resource_spans": [
         {"resource": {"attributes": [
@@ -157,7 +160,7 @@ def sites(obj, path=()):
             yield from sites(v, path + (i,))
 
 
-OPS = ('del', 'null', 'empty', 'num', 'dup', 'samekey')
+OPS = ('del', 'null', 'empty', 'num', 'dup', 'samekey', 'linesep')
 
 
 def apply(doc, path, op):
@@ -188,6 +191,14 @@ def apply(doc, path, op):
         elif op == 'dup':
             if isinstance(o, list):
                 o.insert(k, copy.deepcopy(o[k]))
+            else:
+                return None
+        elif op == 'linesep':
+            # characters that str.splitlines() treats as line boundaries but
+            # that are legal inside a JSON string (written unescaped)
+            if isinstance(o[k], str) and path[-1] != "key" \
+                    and not o[k].isdigit():
+                o[k] = o[k] + "\u2028x\x0by\x85z"
             else:
                 return None
         elif op == 'samekey':
@@ -236,9 +247,9 @@ def run_batch(mapping, docs, workdir):
         return OTelFieldMapping(**copy.deepcopy(mapping))
     # mode 1: one JSON per line, many documents in one file
     f1 = os.path.join(workdir, "lines.json")
-    with open(f1, "w") as f:
+    with open(f1, "w", encoding="utf-8") as f:
         for tag, doc in docs:
-            f.write(json.dumps(doc) + "\n")
+            f.write(json.dumps(doc, ensure_ascii=False) + "\n")
     src = JSONDataSource(JSONDataSourceConfig(
         filepath=f1, json_per_line=True, field_mapping=fm()))
     got1 = [e.model_dump() for e in src]
@@ -251,8 +262,9 @@ def run_batch(mapping, docs, workdir):
     shutil.rmtree(d2, ignore_errors=True)
     os.makedirs(d2)
     for k, (tag, doc) in enumerate(docs):
-        with open(os.path.join(d2, f"f{k:05d}.json"), "w") as f:
-            json.dump(doc, f, indent=1)
+        with open(os.path.join(d2, f"f{k:05d}.json"), "w",
+                  encoding="utf-8") as f:
+            json.dump(doc, f, indent=1, ensure_ascii=False)
     src = JSONDataSource(JSONDataSourceConfig(
         dirpath=d2, json_per_line=False, field_mapping=fm()))
     got2 = [e.model_dump() for e in src]
